@@ -119,7 +119,7 @@ def ensure(prop, theorems, props_module=None, extra_modules=(), thorough=False, 
         # 5. independent re-check (thorough)
         if thorough and built:
             rep.obligations += 1
-            rc, clog = _run(['lake', 'env', 'leanchecker', props_module], 3000)
+            rc, clog = _run(['lake', 'env', 'leanchecker', props_module] + list(extra_modules), 3000)
             if rc != 0:
                 rep.failures.append('leanchecker rejects %s' % props_module)
                 rep.log += clog[-3000:]
